@@ -514,7 +514,20 @@ func runC10Observe(payload string) string {
 		}
 		as3 := args()
 		bv3 := engine.NewVariable()
-		ret, e3 := solveAll(&i.VM, compound("retract", compound(":-", mk(name, as3), bv3)), compound(":-", mk("p", as3), bv3), 20)
+		// retract(Head) means retract((Head :- true)): when every stored clause has the body `true` (facts,
+		// and rules given as `H :- true`), half of the cases ask with the bare head
+		goal3 := engine.Term(compound("retract", compound(":-", mk(name, as3), bv3)))
+		if len(payload)%2 == 0 {
+			bodies, _ := solveAll(&i.VM, compound("clause", mk(name, args()), bv), bv, 20)
+			allTrue := len(bodies) > 0
+			for _, b := range bodies {
+				allTrue = allTrue && b == "Atrue"
+			}
+			if allTrue {
+				goal3 = compound(",", compound("retract", mk(name, as3)), compound("=", bv3, atom("true")))
+			}
+		}
+		ret, e3 := solveAll(&i.VM, goal3, compound(":-", mk("p", as3), bv3), 20)
 		as4 := args()
 		left, _ := solveAll(&i.VM, compound("clause", mk(name, as4), engine.NewVariable()), atom("x"), 20)
 		es := ""
